@@ -17,6 +17,17 @@ EXTENDS Projective, TLC, FiniteSets
 
 VARIABLES mP, mDone
 
+Bug == IF "VERIF_BUG" \in DOMAIN IOEnv THEN IOEnv.VERIF_BUG ELSE "none"      \* a deliberately wrong design, selected by the orchestrator for non-vacuity runs
+(* non-vacuity: the textbook projective addition (add-1998-cmo-2), which has no answer for P + P and for the identity *)
+AddIncomplete(p, q) ==
+  LET y1z2 == FMul(p[2], q[3])  x1z2 == FMul(p[1], q[3])  z1z2 == FMul(p[3], q[3])
+      u == FSub(FMul(q[2], p[3]), y1z2)  v == FSub(FMul(q[1], p[3]), x1z2)
+      vv == FMul(v, v)  vvv == FMul(v, vv)  rr == FMul(vv, x1z2)
+      a == FSub(FSub(FMul(FMul(u, u), z1z2), vvv), FAdd(rr, rr))
+  IN  <<FMul(v, a), FSub(FMul(u, FSub(rr, a)), FMul(vvv, y1z2)), FMul(vvv, z1z2)>>
+Add7(p, q) == IF Bug = "incomplete_add" THEN AddIncomplete(p, q) ELSE Alg7(p, q)
+EqualUT(p, q) == IF Bug = "equal_x_only" THEN FMul(p[1], q[3]) = FMul(q[1], p[3]) ELSE ProjEqualAlg(p, q)
+
 FP    == 0..(P - 1)
 Aff   == TLCEval({<<x, y>> \in FP \X FP : (y * y) % P = (x * x * x + B) % P})
 Reps  == TLCEval({<<0, y, 0>> : y \in 1..(P - 1)}
@@ -44,10 +55,10 @@ GroupLaw ==
   /\ LET a == Aff0(mP) IN
      /\ ToAff(mP) = a
      /\ \A q \in QSet :
-          LET b == Aff0(q)  r == Alg7(mP, q) IN
+          LET b == Aff0(q)  r == Add7(mP, q) IN
           /\ ValidR(r) /\ Aff0(r) = PAdd(a, b)
           /\ ((r[3] = 0) <=> IsInf(PAdd(a, b)))
-          /\ (ProjEqualAlg(mP, q) <=> a = b)
+          /\ (EqualUT(mP, q) <=> a = b)
           /\ (q[3] # 0 => LET m == Alg8(mP, b[1], b[2]) IN ValidR(m) /\ Aff0(m) = PAdd(a, b))
      /\ LET d == Alg9(mP) IN ValidR(d) /\ Aff0(d) = PDbl(a)
      /\ LET n == NegAlg(mP) IN ValidR(n) /\ Aff0(n) = PNeg(a)
